@@ -146,6 +146,24 @@ def build_ops(seed, tier, d, drv):
             ops.append({"id": f"parse{k}", "kind": "parse", "bytes": m["ok"]})
             expect[f"parse{k}"] = ref(pm, f"parse{k}")
         k += 1
+    # items that more than one alternative of a union would accept (a 16-byte identifier part whose first bytes read as a CBOR integer or text):
+    # which alternative wins must not depend on what the same union decoded before (C18-o)
+    def comp_env(parts_list):
+        return {"SUIT_Envelope_Tagged": {"suit-authentication-wrapper": {"SuitDigest": {"suit-digest-algorithm-id": "cose-alg-sha-256"}},
+                                         "suit-manifest": {"suit-manifest-version": 1, "suit-manifest-sequence-number": 1,
+                                                           "suit-common": {"suit-components": parts_list}}}}
+    union_cases = [("ints", [["M", 2, 4096, 256]]), ("rawint", [[{"raw": "0102030405060708090a0b0c0d0e0f10"}, 7]]), ("ints2", [["M", 255, 235225088, 352256]]),
+                   ("rawint2", [[{"raw": "17ffeeddccbbaa998877665544332211"}]]), ("texts", [["I", "name"]]), ("rawtext", [[{"raw": "6261626364656667" * 2}, "x"]]),
+                   ("ints3", [["C", 3]]), ("rawneg", [[{"raw": "20112233445566778899aabbccddeeff"}, 1]]), ("texts2", [["D", "z"]]),
+                   ("rawtext2", [[{"raw": "6f" + "41" * 15}]])]
+    for tag, parts in union_cases:
+        mu = suitio.model_create(drv, comp_env(parts), {})
+        if "ok" not in mu:
+            continue
+        pmu = drv.call({"op": "suit.parse", "bytes": mu["ok"]})
+        if "ok" in pmu:
+            ops.append({"id": "union_" + tag, "kind": "parse", "bytes": mu["ok"]})
+            expect["union_" + tag] = json.dumps(suitio.dec_obj(pmu["ok"]), sort_keys=False)
     # two descriptions that differ only in the directory of the referenced files (same names, different contents)
     for tag, salt in (("A", 1), ("B", 2), ("C", 3)):
         dd = os.path.join(d, "fixed" + tag)
@@ -447,6 +465,17 @@ def run(tier: str, seed: int) -> int:
         reuse.signer_reuse(res, bytes.fromhex(_sc.run_impl_create(_sb(d0), f0)["ok"]), PROP)
         reuse.encryptor_reuse(res, PROP)
         reuse.keygen_reuse(res, PROP)
+        # one process, several signing parties, each with its own copy of the KMS script (same file name, another directory, its own keys): every level
+        # is signed by the KMS its own configuration names, whatever was loaded before (C18-p)
+        from . import c09
+        pj = [(seed, 882000 + i, "parties", 2 + i % 2) for i in range(10 if tier == "quick" else 60)]
+        for job, o in zip(pj, common.pmap(c09.work_recursive, pj, chunk=2)):
+            if o is None:
+                continue
+            res.case(["parties", job[1], o.get("nodes")], nontrivial=True)
+            res.count("history:signing-parties")
+            for p_ in o["problems"]:
+                res.spec_failures.append({"job": ["rec"] + list(job), "what": "sign recursive with one KMS script per party: " + p_})
     drv.close()
     return finish(res, st, RULE, NOTE)
 
